@@ -6,6 +6,18 @@ ALL = ["C%02d" % i for i in range(1, 21)]
 
 # id -> (level, technique, text, note)
 CHECKS = {
+ "C12": ("exploration",
+         "runtime reference-model monitor + algebraic laws on the CLI: generated run files (gob mirror struct) through `staticcheck -merge`, real tagged module through `-matrix` vs manual merge",
+         "Generated multisets of runs (arbitrary checked-file sets, both merge strategies, ties on position/message/category/end) are merged by the real binary; text, JSON and exit status must equal a 60-line model of any/all semantics with exact build-name annotation, and must be invariant under every permutation (<= 4 runs; seeded above), under repeating a run and under feeding the runs on stdin; -matrix on a build-tagged module must equal the manual per-configuration merge.",
+         "trusted: harness/c12 model; the mirror struct's field names follow lintcmd's lintResult."),
+ "C16": ("exploration",
+         "runtime monitors over every diagnostic and fix obtained through the real runner API: position validity, fix hygiene (bounds/overlap/parse/re-type-check with go/types after import fix-up), behavioural equivalence of S*/QF* fixes by compiling and running generated programs before and after the fix",
+         "All analyzer testdata trees, the repository, a slice of std and position-stressing variants (comments/line breaks/parentheses/renamed imports/CRLF/header/tabs) are linted through lintcmd/runner; every position and every suggested fix is checked; 32 executable templates (27 compared) with traced side-effecting sub-expressions are run before and after the fix.",
+         "trusted: go/types as compiler stand-in for fix results, the Go toolchain for behaviour; //line-remapped files skipped and counted."),
+ "C19": ("exploration",
+         "runtime differential monitor: structlayout / structlayout-optimize output vs. unsafe.Sizeof/Alignof/Offsetof printed by a compiled program for generated struct types and for the optimiser's reordered structs",
+         "Generated struct types (all basic kinds, zero-size and blank fields, nested/embedded structs, arrays incl. [0]T) are laid out by the real binaries; entries must tile [0, Sizeof) and equal the compiler's offsets/sizes/alignments; the optimiser's output must be a permutation of the fields, be what the compiler lays out for that order, and not be larger than the original.",
+         "trusted: the Go compiler on linux/amd64 (other architectures cannot be executed here)."),
  "C01": ("translation_validation",
          "runtime translation validation: differential execution of the built IR (reference interpreter) against the compiled program, per generated program and builder mode",
          "Every generated executable program is compiled with the Go toolchain and run (ground truth); its IR is built through the real exported path in 4 modes {naive, lifted} x {debug refs on, off} and every function is interpreted on the same input vectors by a reference interpreter written from the instruction documentation; results, panic class, ordered effect trace and final globals are compared record by record. Held on the programs validated.",
@@ -79,7 +91,7 @@ CHECKS = {
 NA = {}
 
 # checks that have been validated silent on the unchanged tree
-READY = {"C01","C02","C04","C09","C11","C13","C14","C20"}
+READY = {"C01","C02","C03","C04","C05","C06","C07","C08","C09","C11","C13","C14","C15","C17","C18","C20"}
 
 def main():
     checks = []
